@@ -160,6 +160,8 @@ type pexec struct {
 	cursor  int    // position in t.Input
 	nilSeen bool   // a Parse(nil)/AdvanceW happened since last Reset
 	blk     lz.Block
+	gram    [][]int32 // longestPrevAt: positions by their first two bytes
+	gramN   int
 	eofSeen bool // wrap: io.EOF was returned
 
 	fills, shrinks int
@@ -449,7 +451,11 @@ func (x *pexec) doWrite(op *Op) string {
 	// the caller's chunk buffer: an own copy (with spare capacity for every
 	// second length) that is overwritten after the call, as a caller that
 	// reuses its buffer does; io.Writer forbids Write to retain it
-	p := make([]byte, len(src), len(src)+8*(1-len(src)%2))
+	spare := 8 * (1 - len(src)%2)
+	if len(src) >= 1<<16 {
+		spare = 8 + len(src)%3 // large chunk buffers: always with room behind the data
+	}
+	p := make([]byte, len(src), len(src)+spare)
 	copy(p, src)
 	exp := x.bc.BufferSize - x.held()
 	if exp < 0 {
@@ -856,7 +862,7 @@ func (x *pexec) checkBlock(blk *lz.Block, op *Op, w, limit int, wrapped bool) {
 			return
 		}
 		for q := from; q < to; q++ {
-			if L, _ := longestPrev(S, x.off, q, blockEnd); L >= x.spec.minMatch() {
+			if L := x.longestPrevAt(q, blockEnd); L >= x.spec.minMatch() {
 				x.fail("C12", "literal_despite_match", "gsap_literal", "byte at stream position %d emitted as literal although a match of length %d >= MinMatchLen=%d is available (block [%d,%d))", q, L, x.spec.minMatch(), w, blockEnd)
 			}
 		}
@@ -932,8 +938,10 @@ func (x *pexec) checkBlock(blk *lz.Block, op *Op, w, limit int, wrapped bool) {
 		}
 		// C12 clause 1
 		if greedy && contentOK {
-			L, _ := longestPrev(S, x.off, ms, blockEnd)
-			if m != L {
+			L := x.longestPrevAt(ms, blockEnd)
+			if L == oracleGaveUp {
+				x.probe("gsap_oracle_gave_up")
+			} else if m != L {
 				x.fail("C12", "not_longest", "gsap_not_longest", "GSAP match at %d has length %d, longest available against buffered data [%d,%d) is %d (block end %d)", ms, m, x.off, ms, L, blockEnd)
 			}
 			x.probe("gsap_match_checked")
@@ -1210,6 +1218,7 @@ func (x *pexec) doReset(op *Op) string {
 		x.fills++
 	}
 	x.S = append([]byte(nil), data...)
+	x.gram = nil
 	x.cursor += len(data)
 	x.off, x.w = 0, 0
 	x.out = nil
@@ -1237,6 +1246,7 @@ func (x *pexec) doWReset(op *Op) string {
 		x.libPanic("WrappedParser.Reset", pn, hang, "C16")
 	}
 	x.S = nil
+	x.gram = nil
 	x.off, x.w = 0, 0
 	x.out = nil
 	x.eofSeen = false
@@ -1460,4 +1470,51 @@ func (x *pexec) gsapWindowBlind(blk *lz.Block, w, n int) bool {
 		}
 	}
 	return true
+}
+
+// longestPrevAt is longestPrev(x.S, x.off, pos, end) for streams of any
+// length: beyond 16 KiB it looks only at the earlier positions that start
+// with the same two bytes (every match of at least two bytes does), kept in
+// an index that grows with the stream. A query that would cost more than
+// 2^23 byte comparisons gives up (oracleGaveUp: no verdict, never an alarm).
+const oracleGaveUp = -1
+
+func (x *pexec) longestPrevAt(pos, end int) int {
+	S := x.S
+	if len(S) < 1<<14 || x.spec.minMatch() < 2 {
+		L, _ := longestPrev(S, x.off, pos, end)
+		return L
+	}
+	if x.gram == nil {
+		x.gram = make([][]int32, 1<<16)
+		x.gramN = 0
+	}
+	for ; x.gramN < pos && x.gramN+1 < len(S); x.gramN++ {
+		k := int(S[x.gramN])<<8 | int(S[x.gramN+1])
+		x.gram[k] = append(x.gram[k], int32(x.gramN))
+	}
+	if pos+2 > end {
+		return 0 // nothing of two bytes or more fits
+	}
+	best, work := 0, 0
+	for _, f32 := range x.gram[int(S[pos])<<8|int(S[pos+1])] {
+		f := int(f32)
+		if f < x.off {
+			continue
+		}
+		if f >= pos {
+			break
+		}
+		m := 0
+		for pos+m < end && S[f+m] == S[pos+m] {
+			m++
+		}
+		if m > best {
+			best = m
+		}
+		if work += m + 1; work > 1<<23 {
+			return oracleGaveUp
+		}
+	}
+	return best
 }
